@@ -105,12 +105,25 @@ pub fn run(cx: &Ctx) {
     let total = seqs.len() as u64 * np;
     cx.label("exhaustive");
     cx.run_enum(&Small, total, |i| Some(QStream { p: ps[(i % np) as usize], xs: seqs[(i / np) as usize].clone() }), "all sequences of length 1..=4 over a 5-symbol alphabet with a duplicate x p grid of 100+ values (all k/n boundaries +- 1 ulp)");
+    if cx.thorough() {
+        // a second alphabet: signed zeros, a duplicate, values whose sum overflows and whose halves underflow
+        let wide: [f64; 8] = [-1.5, 0.0, -0.0, 2.0, 2.0, 1.5e308, -1.7e308, 5e-324];
+        let mut wseqs: Vec<Vec<f64>> = Vec::new();
+        for n in 1..=4usize {
+            for i in 0..(8u64.pow(n as u32)) {
+                wseqs.push(super::c05::alphabet_stream(&wide, n, i));
+            }
+        }
+        let wtotal = wseqs.len() as u64 * np;
+        cx.label("exhaustive-wide");
+        cx.run_enum(&Small, wtotal, |i| Some(QStream { p: ps[(i % np) as usize], xs: wseqs[(i / np) as usize].clone() }), "all sequences of length 1..=4 over an 8-symbol alphabet (signed zeros, duplicate, +-1.6e308, smallest subnormal) x the p grid");
+    }
     cx.label("generated");
     let strat = || {
         (prop_oneof![2 => 0.0..=1.0f64, 1 => proptest::sample::select(p_grid()), 1 => (0u8..5, 1u8..5, -16.0..-5.0f64, any::<bool>()).prop_map(|(k, n, e, s)| { let b = (k.min(n) as f64) / n as f64; let d = 10f64.powf(e); (if s { b + d } else { b - d }).clamp(0.0, 1.0) })], vec(prop_oneof![3 => -1e6..1e6f64, 1 => (-30.0..30.0f64).prop_map(|e| 10f64.powf(e)), 1 => proptest::sample::select(vec![0.0, -0.0, 1.0, -1.0]), 1 => proptest::sample::select(vec![f64::MAX, f64::MIN, 1e308, 1.5e308, -1e308, -1.7e308, 5e-324, -5e-324, f64::MIN_POSITIVE]), 1 => (300.0..308.25f64, any::<bool>()).prop_map(|(e, s)| { let v = 10f64.powf(e).min(f64::MAX); if s { -v } else { v } })], 1..5))
             .prop_map(|(p, xs)| QStream { p, xs })
     };
-    cx.run_pt(&Small, cx.by(10000, 100000), cx.workers, strat, "random finite values, random p");
+    cx.run_pt(&Small, cx.by(10000, 2000000), cx.workers, strat, "random finite values, random p");
 }
 
 pub fn replay(check: &str, case: &serde_json::Value) -> Option<Result<(), String>> {
